@@ -45,6 +45,7 @@ def dispatch (line : String) : String :=
     | "stmt" => Drivers.ParseStmt.handleStmt args
     | "pexpr" => Drivers.ParseExpr.handle args
     | "e2e" => Drivers.Pipeline.handle args
+    | "e2ef" => Drivers.Pipeline.handleFollow args
     | "jsontext" => Drivers.JsonText.handle args
     | "f64parse" => Drivers.F64Parse.handle args
     | "jsondoc" => Drivers.JsonDocD.handle args
